@@ -12,7 +12,7 @@ from guarded import same, explain
 import itertools
 
 from astdb import AnalysisBroken
-from interp import Interp, Obj, Cell, Ptr, Region, Thrown, Unsupported, Opaque, NULL
+from interp import Interp, Obj, Cell, Ptr, Region, Thrown, Unsupported, Opaque, NULL, NullDeref
 from poly import Poly
 import squidsmodel as sm
 import c02
@@ -111,16 +111,36 @@ def check_config(db, rep, cfg, tier):
         check_partition(rep, 'ini/%s/%s' % (which, cname), unit.loc(fI), layout_of(this, which, nx, nrhos, nscalars), sysreg, nx, nsun, nrhos, nscalars, fI['name'])
     # the same shape reached by re-initialising an object that had another shape before: the layout is a function of the
     # arguments of the last ini() only
-    other_shape = (nx + 1, 5 - nsun if nsun in (2, 3) else 2, nrhos + 1, 1 - min(nscalars, 1))
-    this2, hooks2, it2 = sm.new_solver(db, *other_shape)
-    try:
-        it2.call(fI, this2, [nx, nsun, nrhos, nscalars, Poly.var('tj')])
-        sysreg2 = this2.value.fields['system'].value.fields['p'].value.region
-        for which in ('state', 'estate'):
-            check_partition(rep, 'ini after ini(%s)/%s/%s' % (','.join(map(str, other_shape)), which, cname), unit.loc(fI),
-                            layout_of(this2, which, nx, nrhos, nscalars), sysreg2, nx, nsun, nrhos, nscalars, fI['name'])
-    except Thrown as t:
-        rep.fail('D.layout', 'ini after ini/' + cname, unit.loc(t.node), 're-initialisation with a new shape succeeds', 'throw: %s' % t.what, fI['name'])
+    # ... another shape altogether; the same nodes and matrices with more scalars (a larger flat array, other offsets);
+    # and an object that was moved from before (its members are whatever the move left in them)
+    priors = [('ini(%s)', (nx + 1, 5 - nsun if nsun in (2, 3) else 2, nrhos + 1, 1 - min(nscalars, 1)), False),
+              ('ini(%s)', (nx, nsun, nrhos, nscalars + 2), False),
+              ('ini(%s) and a move out of the object', (nx + 1, nsun, nrhos, nscalars + 1), True)]
+    for plabel, other_shape, moved in priors:
+        plabel = plabel % ','.join(map(str, other_shape))
+        this2, hooks2, it2 = sm.new_solver(db, *other_shape)
+        try:
+            if moved:
+                fmv = db.one('SQuIDS', 'squids::SQuIDS::SQuIDS', 1, lambda f: f.get('moveCtor'))
+                sink = Cell(Obj(sm.SQ, None, 'sink'), None, 0, 'sink')
+                it2.call(fmv, sink, [this2])
+            it2.call(fI, this2, [nx, nsun, nrhos, nscalars, Poly.var('tj')])
+            sysp = this2.value.fields['system'].value.fields['p'].value
+            if not isinstance(sysp, Ptr) or sysp.region is None or sysp.is_null():
+                rep.fail('D.layout', 'ini after %s/%s' % (plabel, cname), unit.loc(fI), 'a flat array for the new shape', 'the object has no state array after ini()', fI['name'])
+                continue
+            sysreg2 = sysp.region
+            if isinstance(sysreg2.size, int) and sysreg2.size < numeqn:
+                rep.fail('D.layout', 'ini after %s/%s' % (plabel, cname), unit.loc(fI), 'a flat array of %d entries' % numeqn, 'array of %d entries' % sysreg2.size, fI['name'])
+                continue
+            for which in ('state', 'estate'):
+                check_partition(rep, 'ini after %s/%s/%s' % (plabel, which, cname), unit.loc(fI),
+                                layout_of(this2, which, nx, nrhos, nscalars), sysreg2, nx, nsun, nrhos, nscalars, fI['name'])
+        except Thrown as t:
+            rep.fail('D.layout', 'ini after %s/%s' % (plabel, cname), unit.loc(t.node), 're-initialisation with a new shape succeeds', 'throw: %s' % t.what, fI['name'])
+        except NullDeref as e:
+            rep.fail('D.layout', 'ini after %s/%s' % (plabel, cname), getattr(e, 'where', None) or unit.loc(fI), 'a flat array for the new shape',
+                     'the state array is a null pointer when ini() writes through it: %s' % e, fI['name'])
     # ---- RHS for every switch setting
     n_rhs = 0
     for bits in itertools.product((0, 1), repeat=5):
